@@ -93,6 +93,16 @@ func Bytes(label string, maxLen int) []byte {
 	return b
 }
 
+// Runes returns ASCII runes (0..127).
+func Runes(label string, maxLen int) []rune {
+	b := bytesOf(next(label))
+	r := make([]rune, len(b))
+	for i, c := range b {
+		r[i] = rune(c & 0x7f)
+	}
+	return r
+}
+
 func Float64(label string) float64 {
 	m := next(label)
 	if m == nil {
